@@ -22,6 +22,7 @@ COMPILER_REPLAYS = {
     "u_mcall": ["replay/c07/call_instances.sh"],
     "u_link": ["replay/c13/link_error/run.sh"],
     "u_scope": ["replay/c05/run.sh"],
+    "u_closenv": ["replay/c08/run.sh"],
 }
 
 
